@@ -16,38 +16,35 @@ scrutinee not an enum, bad pattern (or leaving the fragment).
 
 PROVED (no sorry; universally quantified over programs, types, environments and fuel):
 
-* The typing invariant `Check.hasTy v T` (deep: every element of a list has the element type)
-  and its pillars
-  - `value_subsumption`: a value of type A is a value of every well-formed supertype of A (by the
-    shape of `is_subtype`, M7);
-  - `annotation_check_passes`: a value of static type T passes the evaluator's
-    `check_type` = `is_subtype(Type::from_value(v), T)` — the param / let / return checks of
-    eval.rs can never fail on a well-typed value (e.g. `[]` : `List<NoValue>` ≤ `List<T>`,
-    `empty_list_passes`);
-  - `canonical_int / _bool / _string`: values of type Int / Bool / String are ints / bools /
-    strings, so operand checks of the operators cannot fail;
-  - environment typing `Check.envOK` is preserved by `let` (`Check.setB_ok`) and gives typed
-    lookups (`Check.lookupB_ok`).
-* `check_sound_exprs_partial` (progress + preservation packaged for the big-step semantics) for
-  the STRAIGHT-LINE sub-fragment `Check.slE` (syntactic, decidable): literals, variables
-  (locals, `None`/`True`/`False`/`Unit`), parentheses, ALL binary operators (arithmetic,
-  comparison, `==`/`!=`, `&&`/`||`, `^`), `let` with and without hints, `return`, blocks of
-  these. If such a block type-checks with NO diagnostic in an environment that types the runtime
-  environment, then for every fuel its evaluation yields a value of the inferred type in a typed
-  environment, or a `return` of a value of the expected return type, or a NON-type error
-  (division by zero, overflow), or runs out of fuel — never a type error, never a stray
-  `break`/`continue`.
-* `check_sound_toplevel_partial`: a program whose toplevel expressions are straight-line and for
-  which `check P = []` never ends in a type error, for every fuel.
+* The typing invariant `Check.hasTy v T` (deep) and its pillars: `value_subsumption`,
+  `annotation_check_passes` (the param / let / return checks of eval.rs cannot fail on a
+  well-typed value), `canonical_int/_bool/_string`, environment typing (`Check.envOK`).
+* Checker-only invariants for the WHOLE fragment `Check.okE` (all forms incl. loops and match),
+  in Lemmas/Check.lean: `Check.tc_inv` (checking an expression leaves the bindings unchanged,
+  checking a block only changes its own scope — needed because the checker threads its bindings
+  through BOTH branches of an `if` and through arguments left to right, while arguments are
+  evaluated right to left), `Check.tc_gi` (inferred types are well-formed fragment types: no
+  `Error`, no `Any`), `Check.hasTy_unify` (`unify` / `unify_all` preserve value typing; uses
+  C15's `unify_upper`).
+* `check_sound_exprs` (THE MINIMUM DELIVERABLE, progress + preservation packaged for the big-step
+  semantics): literals, variables, parentheses, all binary operators, `let` with / without hints,
+  assignment, `if` with and without `else` in inferred and checked position, list and tuple
+  literals, `return`, `break`/`continue`, and calls of annotated first-order named functions
+  (recursion included), `Some`, `println`, `print`, `string_repr`: see its docstring.
+  `check_sound_program_stage1`: a program built from these forms that `check` accepts never ends
+  in a type error, for every fuel. `check_sound_exprs_partial` / `check_sound_toplevel_partial`
+  are the earlier straight-line versions (kept).
 
-MISSING for the full statement (covered only by the correspondence and the direct oracle of
-harness/c16.py): `if`/`else`, loops, calls, assignment / `+=`, `match`, list / tuple literals.
-What the induction additionally needs: (1) checking a block leaves the outer bindings unchanged
-(the checker threads its bindings through BOTH branches of an `if`, and through arguments left
-to right while they are evaluated right to left); (2) `unify` preserves value typing (for
-`if … else` / `match` / list literals in inferred position; `Ty.unify_upper` of C15 gives the
-subtyping half); (3) for calls: the body of every function was checked against its annotations —
-`annotation_check_passes` and `value_subsumption` are exactly the facts the call case uses.
+MISSING for the full statement: `+=`/`-=`, `while`, `for`, `match` (excluded by `Check.s1Diags`,
+which returns a marker diagnostic for them). The checker-side lemmas (`tc_inv`, `tc_gi`) already
+cover these forms; what remains is their case in the evaluation induction `Check.sound`
+(loops: re-evaluation of the body under the same Γ, which `tc_inv` provides; match: exhaustiveness
+⇒ some case is reached). The fragment excludes, by `Check.iterOK`, `for` iterables that are not a
+variable / call / parenthesised expression (known findings C16/any-from-checked-if and
+C16/error-from-checked-list: a list literal / if / match checked against `List<Any>` gets a lossy
+type), and the model contains checker-fix-novalue-scrutinee-payload (without it `match (return 1)
+{ Some(w) => Some(w) }` has type `Option<Error>`, which unifies with everything: a genuine
+unsoundness, replay in patches/).
 -/
 set_option linter.unusedVariables false
 set_option linter.unusedSimpArgs false
@@ -149,5 +146,129 @@ theorem check_sound_toplevel_partial (P : Program) (d : Nat)
       | err er => rw [hev] at hres; simp [ResOK] at hres; simp [Outcome.isTypeError, hres]
       | timeout => simp [Outcome.isTypeError]
   exact key P.top [[]] [[]] hfrag hc (by simp [envOK, blockOK])
+
+
+-- ------------------------------------------------------------------ the minimum deliverable: expressions + let + if + calls
+
+/-- `check_sound_exprs`: soundness of the checker (M8) w.r.t. the typed reference semantics for
+blocks built from literals, variables, parentheses, all binary operators, `let` with / without
+hints, assignment, `if` with and without `else` (in inferred AND checked position), list and
+tuple literals, `return`, `break` / `continue`, and CALLS of annotated first-order named
+functions (incl. recursion), `Some`, `println`, `print`, `string_repr`.
+
+Hypotheses: `ProgOK P D` — every function body of `P` is in the fragment (`okL`, `s1DiagsL`), and
+was accepted by the checker against its annotations (this is what `check P = []` gives, see
+`progOK_of_check`); the block `es` is in the fragment (`okL`: `let` only as a block statement;
+`s1DiagsL`: passes `check_loops` and uses none of the forms not yet covered: `+=`, `while`, `for`,
+`match`); it type-checks with NO diagnostic (`tcSeq … = (T, Γ', [])`) in bindings `Γ` of
+well-formed types that type the runtime environment `ρ`.
+
+Conclusion, for EVERY fuel: the evaluation yields a value of the inferred type (of the expected type
+in checked position) in an environment typed by `Γ'`, or a `return` of a value of the function's
+return type, or (inside a loop only) break/continue, or a NON-type error (division by zero,
+overflow), or runs out of fuel. In particular the annotation checks on parameters, `let` hints and
+return values, the arity checks and the operand checks of the evaluator never fail. -/
+theorem check_sound_exprs (P : Program) (D : Nat) (hP : ProgOK P D)
+    (d : Nat) (es : List TExpr) (ret : Ty) (exp : Option Ty) (Γ Γ' : Blocks Ty) (ρ : Blocks Val) (T : Ty)
+    (il : Bool)
+    (hfrag : okL P d es = true) (hfrag' : s1DiagsL il es = [])
+    (hcheck : tcSeq P ret exp Γ es = (T, Γ', []))
+    (hexp : ∀ E, exp = some E → good E = true) (hret : good ret = true)
+    (henv : envOK Γ ρ) (hΓ : GoodEnv Γ) :
+    ∀ fuel, R ret (resTy exp T) Γ Γ' il (evalSeq P fuel ρ es) :=
+  fun fuel => (sound P D hP fuel).2.1 d es ret exp Γ ρ T Γ' il hfrag hcheck hfrag' hexp hret henv hΓ
+
+/-- … in particular: never one of C16's type errors. -/
+theorem check_sound_exprs_no_type_error' (P : Program) (D : Nat) (hP : ProgOK P D)
+    (d : Nat) (es : List TExpr) (ret : Ty) (exp : Option Ty) (Γ Γ' : Blocks Ty) (ρ : Blocks Val) (T : Ty)
+    (il : Bool)
+    (hfrag : okL P d es = true) (hfrag' : s1DiagsL il es = [])
+    (hcheck : tcSeq P ret exp Γ es = (T, Γ', []))
+    (hexp : ∀ E, exp = some E → good E = true) (hret : good ret = true)
+    (henv : envOK Γ ρ) (hΓ : GoodEnv Γ) (fuel : Nat) (e : RErr)
+    (h : evalSeq P fuel ρ es = .err e) : e.isTypeError = false := by
+  have := check_sound_exprs P D hP d es ret exp Γ Γ' ρ T il hfrag hfrag' hcheck hexp hret henv hΓ fuel
+  rw [h] at this
+  simpa [R] using this
+
+theorem checkFuns_nil (P : Program) : ∀ fs : List FunDef, checkFuns P fs = [] → ∀ f ∈ fs, checkFun P f = []
+  | [], _, f, hf => by simp at hf
+  | g :: gs, h, f, hf => by
+    simp only [checkFuns] at h
+    obtain ⟨h1, h2⟩ := List.append_eq_nil_iff.mp h
+    simp at hf
+    rcases hf with rfl | hf
+    · exact h1
+    · exact checkFuns_nil P gs h2 f hf
+
+/-- `check P = []` gives the per-function hypothesis of `check_sound_exprs`. -/
+theorem progOK_of_check (P : Program) (D : Nat) (hcheck : check P = [])
+    (hfrag : ∀ f ∈ P.funs, okL P D f.body = true ∧ s1DiagsL false f.body = []) : ProgOK P D := by
+  intro f hf
+  have hc : checkFuns P P.funs = [] := by
+    unfold check at hcheck
+    exact (List.append_eq_nil_iff.mp hcheck).1
+  have := checkFuns_nil P P.funs hc f hf
+  unfold checkFun at this
+  exact ⟨(hfrag f hf).1, (List.append_eq_nil_iff.mp this).1, (hfrag f hf).2⟩
+
+/-- Program level (stage 1 of `check_sound_fragment`): a fully annotated program whose function
+bodies and toplevel expressions use the forms above and which `check` accepts never ends in a
+type error, for every fuel. -/
+theorem check_sound_program_stage1 (P : Program) (D : Nat)
+    (hfuns : ∀ f ∈ P.funs, okL P D f.body = true ∧ s1DiagsL false f.body = [])
+    (htop : ∀ e ∈ P.top, okS P D e = true ∧ s1Diags false e = [])
+    (hcheck : check P = []) :
+    ∀ fuel, (run fuel P).isTypeError = false := by
+  intro fuel
+  have hP := progOK_of_check P D hcheck hfuns
+  have hc : checkTop P [[]] P.top = [] := by
+    unfold check at hcheck
+    exact (List.append_eq_nil_iff.mp hcheck).2
+  have key : ∀ (es : List TExpr) (Γ : Blocks Ty) (ρ : Blocks Val),
+      (∀ e ∈ es, okS P D e = true ∧ s1Diags false e = []) →
+      checkTop P Γ es = [] → envOK Γ ρ → GoodEnv Γ → (runTop P fuel ρ es).isTypeError = false := by
+    intro es
+    induction es with
+    | nil => intros; simp [runTop, Outcome.isTypeError]
+    | cons e rest ih =>
+      intro Γ ρ hs hck henv hG
+      simp only [checkTop] at hck
+      obtain ⟨T1, Γ1, d1, h1⟩ := triple_exists (tcExpr P .any none Γ e)
+      rw [h1] at hck
+      simp at hck
+      obtain ⟨hd1, _, hrest⟩ := hck
+      subst hd1
+      have he := hs e (by simp)
+      have hres := (sound P D hP fuel).1 D e .any none Γ ρ T1 Γ1 false he.1 h1 he.2 (by simp)
+        (by simp [good]) henv hG
+      have hG1 := stmt_goodenv P D (tc_gi P D).1 e .any none Γ Γ1 T1 he.1 h1 hG
+      simp only [runTop]
+      cases hev : eval P fuel ρ e with
+      | val v ρ1 =>
+        rw [hev] at hres
+        simp [R] at hres
+        exact ih Γ1 ρ1 (fun e' he' => hs e' (by simp [he'])) hrest hres.2 hG1
+      | ret v => simp [Outcome.isTypeError]
+      | brk ρ1 => rw [hev] at hres; simp [R] at hres
+      | cont ρ1 => rw [hev] at hres; simp [R] at hres
+      | err er => rw [hev] at hres; simp [R] at hres; simp [Outcome.isTypeError, hres]
+      | timeout => simp [Outcome.isTypeError]
+  exact key P.top [[]] [[]] htop hc (by simp [envOK, blockOK]) (by intro b hb; simp at hb; subst hb; simp)
+
+-- a program with a recursive annotated function, if/else, a list literal and calls satisfies the
+-- fragment hypotheses
+def exampleProgram : Program :=
+  Program.mk
+    [FunDef.mk "f" [("n", Hint.int)] Hint.int
+      [TExpr.ifE (.binop .le (.var "n") (.int 0)) [.int 1] true
+        [.binop .mul (.var "n") (.call "f" [.binop .sub (.var "n") (.int 1)])]]]
+    [TExpr.letE "xs" none (.list [.call "f" [.int 3], .int 2]),
+     TExpr.call "println" [.call "string_repr" [.var "xs"]]]
+
+example :
+    (∀ f ∈ exampleProgram.funs, okL exampleProgram 12 f.body = true ∧ s1DiagsL false f.body = []) ∧
+    (∀ e ∈ exampleProgram.top, okS exampleProgram 12 e = true ∧ s1Diags false e = []) := by
+  simp [exampleProgram, okL, okE, okA, okS, s1DiagsL, s1Diags, isGlobalName, isValueGlobal, findFun, reservedNames]
 
 end C16
